@@ -515,6 +515,30 @@ Definition serialize6 (r : response6) : bytes :=
   ++ (match r_status r with Some (c, m) => opt6 13 (put16 c ++ m) | None => [] end)
   ++ concat (map (fun e => opt6 (fst e) (snd e)) (r_extras r)).
 
+(* ------------------------------------------------------------------ plugins/dhcp6/local/provider.go buildResponse *)
+(* iana = (IAID, address, preferred, valid) when ianaAddr != nil && ianaPool != nil;
+   pd = (IAID, prefix IP, ones of the prefix mask, preferred, valid); T1 = pref/2, T2 = uint32(float64(pref)*0.8)
+   (= pref*4/5 for every uint32, see notes); prefix length = Mask.Size() of net.CIDRMask(ones,128) (nil, i.e. 0, above 128) *)
+Definition build_response6 (ty : N) (txid client server : bytes) (iana : option (N * bytes * N * N))
+           (pd : option (N * bytes * N * N * N)) (dns : list (option bytes)) (extras : list (N * bytes)) : bytes :=
+  serialize6
+    {| r_type := ty; r_txid := txid; r_client := client; r_server := server;
+       r_iana := match iana with
+                 | Some (iaid, addr, pref, valid) =>
+                   Some {| na_iaid := iaid; na_t1 := pref / 2; na_t2 := pref * 4 / 5; na_addr := Some addr;
+                           na_pref := pref; na_valid := valid |}
+                 | None => None end;
+       r_iapd := match pd with
+                 | Some (iaid, prefix, ones, pref, valid) =>
+                   Some {| pd_iaid := iaid; pd_t1 := pref / 2; pd_t2 := pref * 4 / 5;
+                           pd_plen := (if ones <=? 128 then ones else 0); pd_prefix := Some prefix;
+                           pd_pref := pref; pd_valid := valid |}
+                 | None => None end;
+       r_dns := dns; r_status := None; r_extras := extras |}.
+(* pkg/config/ip/dhcp_options.go DHCPv6Option.Validate (config.validateDHCPOptions): code 0 and the deny list *)
+Definition raw_option6_valid (o : N * bytes) : bool :=
+  negb (existsb (N.eqb (fst o)) [0; 1; 2; 3; 5; 13; 23; 25; 26]) && (blen (snd o) <=? 65535).
+
 (* ------------------------------------------------------------------ reference DHCPv6 TLV decoder (RFC 8415 s.21.1) *)
 Fixpoint tlv6 (fuel : nat) (l : bytes) : list (N * bytes) :=
   match fuel with
